@@ -1,6 +1,7 @@
 //! `nvh` — verification harness for narwhal: translator + correspondence suites.
 //! Usage: nvh <suite> --seed N --cases N --out FILE [--steps N] [--only CASE]
 mod client_suite;
+mod codec_suite;
 mod lat_suite;
 mod oracle;
 mod pool_suite;
@@ -177,6 +178,11 @@ fn main() {
       let (seed, cases) = (a.seed, a.cases);
       let mut t = local.block_on(&rt, async move { writer_suite::run_suite(seed, cases).await });
       t.push_str(&format!("stats {{\"suite\":\"writer\",\"seed\":{},\"cases\":{}}}\n", a.seed, a.cases));
+      std::fs::write(&a.out, t).expect("write transcript");
+    },
+    "codec" => {
+      let exhaustive = a.extra.get("exhaustive").is_some_and(|v| v == "1");
+      let t = codec_suite::run_suite(a.seed, a.cases, exhaustive);
       std::fs::write(&a.out, t).expect("write transcript");
     },
     "lat" => {
